@@ -223,7 +223,8 @@ def documented_lists(W):
         out.append(("range then single bits counting down", T_uint(8), [(4, 4), (3, 1), (2, 1), (1, 1), (0, 1)]))
         out.append(("descending single bits with gaps", T_uint(4), [(6, 1), (4, 1), (2, 1), (0, 1)]))
         out.append(("single bit followed by a range", T_uint(5), [(W - 1, 1), (0, 4)]))
-        out.append(("two far single bits descending", T_uint(2), [(W - 1, 1), (7, 1)]))
+        if W >= 16:
+            out.append(("two far single bits descending", T_uint(2), [(W - 1, 1), (7, 1)]))
     if W >= 32:
         out.append(("riscv J imm", T_uint(20), [(21, 10), (20, 1), (12, 8), (31, 1)]))
     if W >= 3:
@@ -503,6 +504,10 @@ def universal_layout(rnd, W=None, tag="universal random struct"):
                 f.doc_hidden = True
             if rnd.random() < 0.08:
                 f.zero_pad = True
+            if len(ranges) > 1 and rnd.random() < 0.12:
+                f.list_trailing_comma = True
+            if len(ranges) > 1 and rnd.random() < 0.1 and not f.attr_split:
+                f.list_split = rnd.randint(1, len(ranges) - 1)
             if rnd.random() < 0.06:
                 kw = rnd.choice(["type", "match", "loop", "struct", "fn"])
                 if kw not in [x.name for x in fields]:
